@@ -94,13 +94,16 @@ class ClassicalGate(Box):
             self.name, self.cod, self.dom, self.array, _dagger)
 
     def subs(self, *args):
+        if not self.free_symbols:
+            return self
         data = rsubs(list(self.data.flatten()), *args)
         return ClassicalGate(
             self.name, self.dom, self.cod, data, _dagger=self._dagger)
 
     def lambdify(self, *symbols, **kwargs):
         from sympy import lambdify
-        data = lambdify(symbols, self.data, dict(kwargs, modules=Tensor.np))
+        data = lambdify(symbols, list(self.data.flatten()),
+                        **dict(kwargs, modules=Tensor.np))
         return lambda *xs: ClassicalGate(
             self.name, self.dom, self.cod, data(*xs), _dagger=self._dagger)
 
@@ -346,7 +349,8 @@ class Parametrized(Box):
 
     def lambdify(self, *symbols, **kwargs):
         from sympy import lambdify
-        data = lambdify(symbols, self.data, dict(kwargs, modules=Tensor.np))
+        data = lambdify(
+            symbols, self.data, **dict(kwargs, modules=Tensor.np))
         return lambda *xs: type(self)(data(*xs))
 
     @property
@@ -542,7 +546,8 @@ class Scalar(Parametrized):
         if type(self) is not Scalar:
             return super().lambdify(*symbols, **kwargs)
         from sympy import lambdify
-        data = lambdify(symbols, self.data, dict(kwargs, modules=Tensor.np))
+        data = lambdify(
+            symbols, self.data, **dict(kwargs, modules=Tensor.np))
         return lambda *xs: Scalar(data(*xs), is_mixed=self.is_mixed)
 
     def grad(self, var, **params):
